@@ -736,8 +736,13 @@ fn classify_invalid(reason: &str, _bytes: &[u8]) -> &'static str {
 
 pub fn run(rep: &mut Report) {
     let thorough = rep.is_thorough();
+    run_with(rep, if thorough { 60_000 } else { 4_000 }, 160, true);
+}
+
+/// `single_cut_limit`: streams up to this length get every 1-cut split; `floors` off for the
+/// small interpreter (Miri) leg.
+pub fn run_with(rep: &mut Report, cases: usize, single_cut_limit: usize, floors: bool) {
     rep.rule = "generated RESP values (nesting <= 6, nil bulk/array, empty, binary payloads with CR/LF) in pipelines of 1-8 packets; every 1-cut split for short streams and random k-cut splits otherwise; fed to 6 single-packet decoders, the 2 multi decoders and RespCodec/FramedRead; encoders compared byte-for-byte with a reference encoder; negative part = hand-written near-RESP + structure-aware mutations judged by a strict reference parser. distinct_nontrivial = distinct (stream, split) cases with >= 2 chunks or nesting, plus distinct invalid inputs".to_string();
-    let cases = if thorough { 60_000 } else { 4_000 };
     let seed = rep.seed;
     for i in 0..cases {
         let mut rng = Rng::derive(seed, i as u64);
@@ -777,7 +782,7 @@ pub fn run(rep: &mut Report) {
         };
         let desc = json!({"case": i, "packets": values.iter().take(3).map(|v| v.short()).collect::<Vec<_>>(), "truncated_tail": truncated});
         let mut splits: Vec<Vec<usize>> = vec![vec![]];
-        if stream.len() <= 160 {
+        if stream.len() <= single_cut_limit {
             for c in 1..stream.len() {
                 splits.push(vec![c]);
             }
@@ -833,10 +838,12 @@ pub fn run(rep: &mut Report) {
         check_invalid(rep, &h, &[]);
         check_invalid(rep, &h, &[RV::Simple(b"OK".to_vec()), RV::Bulk(Some(b"x".to_vec()))]);
     }
-    rep.floor("packets_decoded", 10_000);
-    rep.floor("incomplete_results", 5_000);
-    rep.floor("invalid_streams_checked", 40);
-    rep.floor("multi_groups_decoded", 1_000);
-    rep.floor("framed_read_runs", 1_000);
+    if floors {
+        rep.floor("packets_decoded", 10_000);
+        rep.floor("incomplete_results", 5_000);
+        rep.floor("invalid_streams_checked", 40);
+        rep.floor("multi_groups_decoded", 1_000);
+        rep.floor("framed_read_runs", 1_000);
+    }
     rep.assumptions.push("simple strings / errors / integers are generated without CR or LF (RESP cannot carry them); integer payloads are treated as opaque bytes by the reference".to_string());
 }
